@@ -430,35 +430,65 @@ pub proof fn lemma_rt_step_new_line(ts: Seq<RawToken>, nsrc: int, nnames: int, r
     let d = t.dst_line - est.line;
     if k > 0 { assert(tle(tkey(ts[k - 1]), tkey(ts[k]))); }
     assert(d > 0);
-    let e1 = e + semis(d - 1);
-    assert(semis(d) == semis(d - 1).push(59u8));
-    assert(e2 =~= e1 + seq![59u8] + f);
-    lemma_split_semis(e, d - 1);
-    lemma_split_at_sep(e1, f, 59u8);
-    lemma_split_sep_free(f, 59u8);
-    lemma_split_sep_free(f, 44u8);
+    assert(e2 =~= e + semis(d) + f);
+    lemma_split_new_line(e, d, f);
     let lines2 = lines + empties(d - 1) + seq![f];
     assert(split_seq(e2, 59u8) == lines2);
-    assert(lines2.len() == n + d);
-    // the empty lines change nothing
-    lemma_lines_prefix(lines2, lines, rmis, n, nsrc, nnames);
-    lemma_rt_empty_lines(lines2, rmis, n, d - 1, nsrc, nnames);
-    assert(dec_lines_upto(lines2, rmis, n + d - 1, nsrc, nnames) == full);
-    assert(lines2[n + d - 1] == f);
-    assert(n + d - 1 == t.dst_line);
     let st00 = DecSt { dst_col: 0, ..st };
+    lemma_read_new_line(lines, rmis, d, f, nsrc, nnames);
+    assert(n + d - 1 == t.dst_line);
     lemma_dec_segment_of_token(ts, k, est, col0, acc, st00, 0, bits, nsrc, nnames);
     let res = dec_segment(f, acc, st00, t.dst_line as int, 0, bits, nsrc, nnames);
-    assert(seq![f][0] == f);
-    assert(dec_segs_upto(seq![f], 0, acc, st00, t.dst_line as int, bits, nsrc, nnames) == DecOut::Good(acc, st00));
-    assert(dec_segs_upto(seq![f], 1, acc, st00, t.dst_line as int, bits, nsrc, nnames) == res);
-    assert(dec_line(f, rmi_t, acc, st, t.dst_line as int, nsrc, nnames) == res);
     assert(dec_lines_upto(lines2, rmis, n + d, nsrc, nnames) == res);
     let acc2 = res->Good_0;
     assert(acc2 =~= acc.push(acc2.last()));
     lemma_equiv_push(dedup(ts, k), acc, t, acc2.last());
     assert(line_segs(ts, k + 1) == 1);
     assert(lines2.last() == f);
+    lemma_split_sep_free(f, 44u8);
+}
+/// text: d line breaks and a ';'-free piece after e give e's lines, d - 1 empty lines, and the piece
+pub proof fn lemma_split_new_line(e: Seq<u8>, d: int, f: Seq<u8>)
+    requires d >= 1, sep_free(f, 59u8)
+    ensures split_seq(e + semis(d) + f, 59u8) == split_seq(e, 59u8) + empties(d - 1) + seq![f]
+{
+    let e1 = e + semis(d - 1);
+    assert(semis(d) == semis(d - 1).push(59u8));
+    assert(e + semis(d) + f =~= e1 + seq![59u8] + f);
+    lemma_split_semis(e, d - 1);
+    lemma_split_at_sep(e1, f, 59u8);
+    lemma_split_sep_free(f, 59u8);
+}
+/// reader: after complete lines with outcome Good(acc, st), d - 1 empty lines and a one-segment line f read as that segment at column base 0
+pub proof fn lemma_read_new_line(lines: Seq<Seq<u8>>, rmis: Seq<Seq<u8>>, d: int, f: Seq<u8>, nsrc: int, nnames: int)
+    requires d >= 1, f.len() > 0, sep_free(f, 44u8), dec_lines_upto(lines, rmis, lines.len() as int, nsrc, nnames) is Good,
+        rmi_valid(rmi_for(rmis, lines.len() + d - 1)),
+    ensures ({
+        let full = dec_lines_upto(lines, rmis, lines.len() as int, nsrc, nnames);
+        let lines2 = lines + empties(d - 1) + seq![f];
+        let ln = lines.len() + d - 1;
+        dec_lines_upto(lines2, rmis, lines.len() + d, nsrc, nnames)
+            == dec_segment(f, full->Good_0, DecSt { dst_col: 0, ..full->Good_1 }, ln, 0, rmi_bits(rmi_for(rmis, ln)), nsrc, nnames) }),
+{
+    let n = lines.len() as int;
+    let full = dec_lines_upto(lines, rmis, n, nsrc, nnames);
+    let acc = full->Good_0; let st = full->Good_1;
+    let lines2 = lines + empties(d - 1) + seq![f];
+    let ln = n + d - 1;
+    let rmi_t = rmi_for(rmis, ln);
+    let bits = rmi_bits(rmi_t);
+    assert(lines2.len() == n + d);
+    lemma_lines_prefix(lines2, lines, rmis, n, nsrc, nnames);
+    lemma_rt_empty_lines(lines2, rmis, n, d - 1, nsrc, nnames);
+    assert(dec_lines_upto(lines2, rmis, ln, nsrc, nnames) == full);
+    assert(lines2[ln] == f);
+    lemma_split_sep_free(f, 44u8);
+    let st00 = DecSt { dst_col: 0, ..st };
+    let res = dec_segment(f, acc, st00, ln, 0, bits, nsrc, nnames);
+    assert(seq![f][0] == f);
+    assert(dec_segs_upto(seq![f], 0, acc, st00, ln, bits, nsrc, nnames) == DecOut::Good(acc, st00));
+    assert(dec_segs_upto(seq![f], 1, acc, st00, ln, bits, nsrc, nnames) == res);
+    assert(dec_line(f, rmi_t, acc, st, ln, nsrc, nnames) == res);
 }
 pub proof fn lemma_rt_step(ts: Seq<RawToken>, nsrc: int, nnames: int, rmis: Seq<Seq<u8>>, k: int)
     requires 0 <= k < ts.len(), sorted_tokens(ts), all_wf(ts, nsrc, nnames), range_ok(ts, rmis), rt_inv(ts, nsrc, nnames, rmis, k),
